@@ -595,6 +595,8 @@ FIXTURES = {
               'expect_ok': 'yr_rules_define_string_variable:type-check-dominates-store'},
     'R20.6': {'src': 'C20/define.c', 'run': r20_6, 'expect': 'ss_overwrite_bad:s#0:length-written-with-bytes',
               'expect_ok': 'ss_overwrite_good:s#0:length-written-with-bytes'},
+    'R20.7': {'src': 'C20/define.c', 'run': r20_7, 'expect': 'cli_int_bad:integer-conversion#0:decimal',
+              'expect_ok': 'cli_int_good:integer-conversion#0:decimal'},
 }
 
 
@@ -611,4 +613,4 @@ def run(ctx):
     r20_6(ctx)
     ctx.floor('R20.6', 4)
     r20_7(ctx)
-    ctx.floor('R20.7', 2)
+    ctx.floor('R20.7', 1)
